@@ -478,7 +478,12 @@ func body11(c *sched.Ctl, cs Case, v *ev.Verdict) {
 		if eff {
 			v.OpsEffective++
 		}
-		if c.Settle(false) {
+		full := c.Settle(false)
+		if pp := c.Panics(); pp != "" {
+			fail("promise:panic", "operation panicked: %s", pp)
+			break
+		}
+		if full {
 			quiescent(fmt.Sprintf("after op %d", i))
 		}
 	}
